@@ -101,6 +101,8 @@ func genShutdown(r *Rng, tier string, p *Plan) {
 		p.N["park_decider_us"] = max(0, stop-PickOf(r, int64(0), 100_000, 1_000_000, 3_000_000, 6_000_000))
 		p.N["release_decider_after_us"] = PickOf(r, int64(100_000), 1_000_000, 3_000_000)
 	}
+	// General.ConfigReloadInterval: 0 switches the periodic reload off (legal)
+	p.N["cfg_reload_us"] = PickOf(r, int64(300_000_000), 300_000_000, 0)
 	p.SortOps()
 }
 
